@@ -30,7 +30,7 @@ EXPLANATION = "direct exploration of get_power on network, DC, complex, time-dom
 
 
 def budget_s(tier):
-    return 400 if tier == "quick" else 3600
+    return 1200 if tier == "quick" else 5400
 
 
 def shards(tier):
